@@ -77,6 +77,8 @@ impl ShutdownFlag {
 
 impl ShutdownFlag {
     #[verifier::external_body]
+    pub fn new() -> ShutdownFlag { unimplemented!() }
+    #[verifier::external_body]
     pub fn load(&self, o: Ordering) -> bool { unimplemented!() }
 }
 #[verifier::external_body]
@@ -96,6 +98,8 @@ pub struct RetirementQueueInner { _p: () }
 pub struct RetirementQueueH { pub pending: PendingLock, pub inner: RetirementQueueInner }
 impl RetirementQueueH {
     pub uninterp spec fn id(&self) -> int;
+    #[verifier::external_body]
+    pub fn new() -> RetirementQueueH { unimplemented!() }
     #[verifier::external_body]
     pub fn clone(&self) -> (r: RetirementQueueH)
         ensures r.id() == self.id(),
@@ -158,6 +162,12 @@ pub struct JoinHandleH { _p: () }
 pub struct HandleVec { _p: () }
 impl HandleVec {
     pub uninterp spec fn count(&self) -> int;
+    #[verifier::external_body]
+    pub fn new() -> (r: HandleVec)
+        ensures r.count() == 0,
+    {
+        unimplemented!()
+    }
     // self.worker_handles.get_mut().push(handle)
     #[verifier::external_body]
     pub fn push_handle(&mut self, h: JoinHandleH)
@@ -169,6 +179,8 @@ impl HandleVec {
 #[verifier::external_body]
 pub struct HandleSlot { _p: () }
 impl HandleSlot {
+    #[verifier::external_body]
+    pub fn new() -> HandleSlot { unimplemented!() }
     // *self.periodic_flush_handle.get_mut() = v
     #[verifier::external_body]
     pub fn set_handle(&mut self, v: Option<JoinHandleH>) { unimplemented!() }
@@ -235,3 +247,21 @@ pub fn step_next(i: usize, step: usize) -> (r: usize)
 {
     i.saturating_add(step)
 }
+
+// num_cpus::get()
+#[verifier::external_body]
+pub fn cpu_count() -> usize { unimplemented!() }
+pub fn max_usize(a: usize, b: usize) -> (r: usize)
+    ensures r == (if a >= b { a } else { b }),
+{
+    if a >= b { a } else { b }
+}
+// Arc::new((0..n).map(|i| CachePadded::new(ShardedWriteBuffer::new(i))).collect())
+#[verifier::external_body]
+pub fn make_shards(n: usize) -> (r: Arc<Vec<ShardedWriteBuffer>>)
+    ensures r@.len() == n,
+{
+    unimplemented!()
+}
+#[verifier::external_body]
+pub fn new_fault_scope() -> usize { unimplemented!() }
